@@ -161,11 +161,17 @@ CLAIMS['C18'] = dict(category='other', technique='bounded enumeration of the fun
          'crate-local logic is a 21-byte prefix test and a boolean key predicate.', 'discover'),
     note='Bound: texts of <= 3 lines from 8 line kinds x 2 newline styles x final newline or not; maps with 0..2 tokens through to_data_url / decode_data_url / embedded discovery; detection on serialised maps.',
     design_ref='DESIGN.md 5 C18')
-CLAIMS['C19'] = dict(category='other', technique='bounded enumeration of the function contract (stand-in for contract-based deductive verification)',
-    text=_BOUNDED_ONLY % ('make_relative_path is written with split / filter / collect / sort_by_key over Vec<Cow<[&str]>>, repeat().take() and join, none of which has a vstd specification; '
-         'bringing it under contract would assume the whole function away in shims.', 'relpath'),
-    note='Bound: all pairs of paths of 1..4 components over 3 names, absolute and relative, both separators for the base (57600 pairs).',
+CLAIMS['C19'] = dict(
+    text='PARTIAL: unbounded proof of the helper under make_relative_path, find_common_prefix_of_sorted_vec (utils.rs:32-57): for two component lists it returns exactly '
+         'their longest common leading run (nothing when they share no first component), always a non-empty prefix of the first list, with no out-of-range index; this '
+         'is the "however many leading components they share" part of the statement. make_relative_path itself (split on both separators, filter, pop, sort by length, '
+         '"../" per remaining base component, join of the remaining target components, "." for an empty result) is a chain of std iterator adapters outside the '
+         'verifier\'s subset and is decided by the bounded stand-in relpath only (all pairs of paths of 1..4 components, 1..5 in the thorough tier).',
+    note=_TB + 'Assumed for the helper: Cow<[&str]> deref, Option<&&str> comparison with Some(&comp), Option<usize> ordering (None first), &s[..=i], Iterator::enumerate. '
+         'With three or more lists the helper can return a run that one list does not share (the minimum is reset when an earlier list shares nothing); no listed property '
+         'depends on that (make_relative_path passes two lists; rewrite only strips the result from sources that start with it).',
     design_ref='DESIGN.md 5 C19')
+
 CLAIMS['C20'] = dict(
     text='PARTIAL: unbounded proof, for every byte string, of the indexed-bundle functions against the byte layout (spec/rambundle.rs): is_ram_bundle_slice and '
          'RamBundle::parse_indexed_from_slice / _from_vec / IndexedRamBundle::parse accept exactly a complete 12-byte header with the magic number and keep the bytes and the '
@@ -185,6 +191,7 @@ NOT_APPLICABLE['C16'] = ('concurrency (interleavings of threads sharing a Source
 
 # parts of each property that no discharged obligation covers (reported in every evidence file, never counted)
 NOT_COVERED = {
+    'C19': ['make_relative_path itself (iterator-adapter chain: split / filter / collect / sort_by_key / repeat / take / join): bounded stand-in relpath', 'find_common_prefix (the rewrite "~" option): not part of C19'],
     'C20': ['scroll::Pread internals and the derive(Pread) expansion (assumed contracts; exercised by the bounded stand-in ram_bundle)', 'UnbundleRamBundle (file-system based variant)', 'split_ram_bundle / SplitRamBundleModuleIter (composition with flatten and SourceMapBuilder)', 'that Iterator::next of RamBundleModuleIter is the inherent body verified here (R-trait-inherent: same text, emitted outside the trait impl)'],
     'C10': ['the sweep of adjust_mappings (skip / overlap / clip / advance, displacement arithmetic, final sort): bounded stand-in only', 'positions >= 2^31 (as i32)'],
     'C09': ['strip_prefixes, find_common_prefix ("~") (bounded stand-in rewrite only)', 'load_local_source_contents (filesystem; excluded by the property)', 'SourceMapHermes::rewrite function-map permutation (bounded stand-in only)'],
